@@ -66,14 +66,24 @@ type c17Meta struct {
 	Victim   string `json:"victim,omitempty"` // crafted request ID: the other backend's request it is meant to reach
 	Target   string `json:"target,omitempty"` // admin: backend the call is about
 	History  bool   `json:"history,omitempty"`
+	Fault    string `json:"fault,omitempty"` // the API read call of this handler invocation that fails
+}
+
+// e3Fault fails the Nth call of service.method made by one handler invocation.
+type e3Fault struct {
+	Service string `json:"service"`
+	Method  string `json:"method"`
+	Nth     int    `json:"nth"`
+	Timeout bool   `json:"timeout,omitempty"`
 }
 
 type c17Case struct {
-	I     int     `json:"i"`
-	Call  e3Call  `json:"call"`
-	Keep  bool    `json:"keep,omitempty"`
-	Until bool    `json:"until,omitempty"`
-	Meta  c17Meta `json:"meta"`
+	Faults []e3Fault `json:"faults,omitempty"`
+	I      int       `json:"i"`
+	Call   e3Call    `json:"call"`
+	Keep   bool      `json:"keep,omitempty"`
+	Until  bool      `json:"until,omitempty"`
+	Meta   c17Meta   `json:"meta"`
 }
 
 type c17Req struct {
@@ -553,6 +563,37 @@ func c17GenCases(rng *rand.Rand, wd *c17World, keepFrac float64, history bool) {
 			}
 		}
 	}
+	// the same agent calls with one failing store read each: a transient error must never turn a cross-backend
+	// or unauthorised call into an accepted one
+	variants := []e3Fault{{"datastore_v3", "Get", 1, false}, {"datastore_v3", "Get", 2, true}, {"datastore_v3", "Get", 3, false},
+		{"memcache", "Get", 1, false}, {"memcache", "Get", 2, false}, {"datastore_v3", "RunQuery", 1, true}}
+	base := append([]*c17Case(nil), wd.Cases...)
+	for _, src := range base {
+		m := src.Meta
+		if m.Kind != "agent" || m.History || src.Keep {
+			continue
+		}
+		var use []e3Fault
+		switch {
+		case m.NamedCls == "own" && m.Endpoint != "pending" && (strings.HasPrefix(m.RIDCls, "other-") || m.RIDCls == "unknown" || m.RIDCls == "crafted-collision"):
+			use = variants
+		case m.NamedCls == "own" && m.Endpoint == "pending":
+			use = []e3Fault{variants[0], variants[5]}
+		case m.NamedCls == "own":
+			use = []e3Fault{variants[rng.Intn(len(variants))]}
+		default:
+			if rng.Float64() < keepFrac {
+				use = []e3Fault{variants[rng.Intn(len(variants))]}
+			}
+		}
+		for _, fv := range use {
+			fv.Timeout = fv.Timeout != (len(wd.Cases)%2 == 0)
+			cp := *src
+			cp.Faults = []e3Fault{fv}
+			cp.Meta.Fault = fmt.Sprintf("%s.%s#%d", map[string]string{"datastore_v3": "datastore", "memcache": "memcache"}[fv.Service], fv.Method, fv.Nth)
+			wd.add(&cp)
+		}
+	}
 	for i, c := range wd.Cases {
 		c.I = i
 	}
@@ -572,6 +613,7 @@ type c17Result struct {
 	Ms       int                 `json:"ms"`
 	Hung     bool                `json:"hung"`
 	ListedIn []string            `json:"listed_in"`
+	Fired    int                 `json:"fault_fired"`
 }
 
 func mentions(s, tok string) bool {
@@ -754,6 +796,7 @@ func (wd *c17World) judge(r *core.Run, c *c17Case, res *c17Result, st *c17State)
 	cs := map[string]interface{}{"world": wd.ID, "backends": wd.backendRecs(), "case": c}
 	detail := map[string]interface{}{"status": res.Status, "body": core.Trunc(res.Body, 600), "headers": res.Hdr, "api_calls": res.Ops, "state_changes": res.Diff, "listed_in": res.ListedIn}
 	viol := func(sig, msg string) { r.Violate("C17:"+sig, msg, cs, detail) }
+	faulted := res.Fired > 0 // an injected read failure actually hit this call: error statuses are then admissible, acceptance is not
 	if res.Hung {
 		viol("handler-hangs:"+m.Kind+":"+m.Endpoint, "the handler did not return within 45 s")
 		return
@@ -789,7 +832,7 @@ func (wd *c17World) judge(r *core.Run, c *c17Case, res *c17Result, st *c17State)
 			return
 		}
 		if !authorised {
-			if res.Status != 401 {
+			if res.Status != 401 && !(faulted && res.Status/100 == 5) {
 				viol("unauthorised-not-401:"+m.Endpoint, fmt.Sprintf("%s by identity %s (%s) naming backend %q (%s): status %d, want 401", m.Endpoint, m.Ident, m.Email, m.Named, m.NamedCls, res.Status))
 			}
 			noMutation("unauthorised")
@@ -798,7 +841,11 @@ func (wd *c17World) judge(r *core.Run, c *c17Case, res *c17Result, st *c17State)
 		}
 		// authorised for backend m.Named
 		if res.Status == 401 || res.Status == 403 {
-			viol("authorised-rejected:"+m.Endpoint, fmt.Sprintf("%s by the registered agent %s of backend %q was rejected with %d", m.Endpoint, m.Email, m.Named, res.Status))
+			if faulted {
+				noMutation("rejected-under-fault") // the backend record could not be read: rejecting is fine, writing is not
+			} else {
+				viol("authorised-rejected:"+m.Endpoint, fmt.Sprintf("%s by the registered agent %s of backend %q was rejected with %d", m.Endpoint, m.Email, m.Named, res.Status))
+			}
 			return
 		}
 		if bad := wd.foreign(m.Named, append(opKeysOf(res.Ops, false), res.Diff...)); len(bad) > 0 {
@@ -809,7 +856,7 @@ func (wd *c17World) judge(r *core.Run, c *c17Case, res *c17Result, st *c17State)
 			what := map[string]string{"request": "served", "response": "answered"}[m.Endpoint]
 			if res.Status/100 == 2 {
 				viol("other-backends-request-"+what+":id-boundary-confusion", fmt.Sprintf("backend %q sent request ID %q and thereby reached request %q of backend %q (status %d)", m.Named, m.RID, m.Victim, m.RIDOwner, res.Status))
-			} else if res.Status != 404 && !m.History {
+			} else if res.Status != 404 && !m.History && !faulted {
 				viol("nonexistent-request-not-404:"+m.Endpoint, fmt.Sprintf("backend %q, request ID %q: status %d, want 404", m.Named, m.RID, res.Status))
 			}
 			for _, d := range res.Diff {
@@ -829,7 +876,9 @@ func (wd *c17World) judge(r *core.Run, c *c17Case, res *c17Result, st *c17State)
 				return // nothing pending: the call legitimately waits; only reached in the dedicated slow case
 			}
 			if res.Status != 200 {
-				viol("authorised-pending-fails", fmt.Sprintf("pending list of %q: status %d", m.Named, res.Status))
+				if !faulted {
+					viol("authorised-pending-fails", fmt.Sprintf("pending list of %q: status %d", m.Named, res.Status))
+				}
 				return
 			}
 			var ids []string
@@ -851,13 +900,15 @@ func (wd *c17World) judge(r *core.Run, c *c17Case, res *c17Result, st *c17State)
 				// the backend was deleted and registered again since: only the ownership rule applies
 			case ridOwn && st.registeredStill(m.Named):
 				want := wd.req(m.RID)
-				if res.Status != 200 || res.Body != want.Contents {
+				if faulted && res.Status/100 != 2 {
+					// own request not served because the store failed: admissible
+				} else if res.Status != 200 || res.Body != want.Contents {
 					viol("authorised-fetch-wrong", fmt.Sprintf("fetch of own request %q: status %d, body matches planted request: %v", m.RID, res.Status, res.Body == want.Contents))
 				} else if got := strings.Join(res.Hdr[http.CanonicalHeaderKey(hdrUser)], ","); got != want.User {
 					viol("fetch-wrong-user-header", fmt.Sprintf("fetch of %q reports end user %q, the request was issued by %q", m.RID, got, want.User))
 				}
 			case ridOther:
-				if res.Status != 404 && !m.History {
+				if res.Status != 404 && !m.History && !faulted {
 					viol("other-backends-request-not-404:request", fmt.Sprintf("fetch by backend %q of request %q belonging to %q: status %d, want 404", m.Named, m.RID, owner, res.Status))
 				}
 				if res.Status/100 == 2 {
@@ -865,7 +916,7 @@ func (wd *c17World) judge(r *core.Run, c *c17Case, res *c17Result, st *c17State)
 				}
 				noLeak("cross-backend")
 			default:
-				if res.Status/100 != 4 && !ridOwn {
+				if res.Status/100 != 4 && !ridOwn && !(faulted && res.Status/100 == 5) {
 					viol("fetch-of-nonexistent-request-not-4xx", fmt.Sprintf("fetch of request ID %q (%s): status %d", m.RID, m.RIDCls, res.Status))
 				}
 				noLeak("authorised-unknown-request")
@@ -874,7 +925,7 @@ func (wd *c17World) judge(r *core.Run, c *c17Case, res *c17Result, st *c17State)
 			switch {
 			case st.stale[m.RID]:
 			case ridOther:
-				if res.Status != 404 && !m.History {
+				if res.Status != 404 && !m.History && !faulted {
 					viol("other-backends-request-not-404:response", fmt.Sprintf("response post by backend %q for request %q belonging to %q: status %d, want 404", m.Named, m.RID, owner, res.Status))
 				}
 				if res.Status/100 == 2 {
@@ -886,7 +937,7 @@ func (wd *c17World) judge(r *core.Run, c *c17Case, res *c17Result, st *c17State)
 					}
 				}
 			case ridOwn && st.pending[m.Named][m.RID]:
-				if res.Status != 200 {
+				if res.Status != 200 && !faulted {
 					viol("authorised-response-rejected", fmt.Sprintf("response post for own pending request %q: status %d", m.RID, res.Status))
 				}
 			case !ridOwn:
@@ -1026,6 +1077,9 @@ func (c *c17Case) class() string {
 	}
 	switch m.Kind {
 	case "agent":
+		if m.Fault != "" {
+			h += "|fails:" + m.Fault
+		}
 		return fmt.Sprintf("agent|%s|id:%s|named:%s|rid:%s%s", m.Endpoint, m.Ident, m.NamedCls, m.RIDCls, h)
 	case "admin":
 		return fmt.Sprintf("admin|%s|id:%s%s", m.Endpoint, m.Ident, h)
@@ -1037,7 +1091,7 @@ func (c *c17Case) class() string {
 
 // C17 — who may act as agent, user and admin.
 func C17(r *core.Run) {
-	r.SetRule("worlds of 1-3 registered backends (distinct/shared agent accounts, per-user/shared end users, plain and exotic IDs, IDs related across a separator (B2 = B1<sep>word for sep in : / | \" space . % \\) with request IDs crafted so that (backend, request ID) read across the separator names another backend's request, pending and answered requests with planted secrets) x caller identity {no OAuth, stranger, OAuth admin that is no agent, each agent} x endpoint {pending, request, response} x named backend {each, unknown, absent} x request ID {pending/answered of each backend, unknown, absent}; admin API {list, add, takeover, garbage, delete, other methods/paths} x {App Engine admin, OAuth admin, plain user, agent, nobody} with follow-up calls on the resulting state; end users x paths through the client handler; scripted histories (agent works, the same backend ID is registered again for another agent account and end user, old and new agent on every endpoint, former and new end user through the client handler, unregister, original registration restored) and random-order histories, both judged against an evolving model of who is registered; every call goes through appengine's handleHTTP and the app's routing closure; class = (kind, endpoint, identity class, named-backend class, request-ID class, history?)")
+	r.SetRule("worlds of 1-3 registered backends (distinct/shared agent accounts, per-user/shared end users, plain and exotic IDs, IDs related across a separator (B2 = B1<sep>word for sep in : / | \" space . % \\) with request IDs crafted so that (backend, request ID) read across the separator names another backend's request, pending and answered requests with planted secrets) x caller identity {no OAuth, stranger, OAuth admin that is no agent, each agent} x endpoint {pending, request, response} x named backend {each, unknown, absent} x request ID {pending/answered of each backend, unknown, absent}; admin API {list, add, takeover, garbage, delete, other methods/paths} x {App Engine admin, OAuth admin, plain user, agent, nobody} with follow-up calls on the resulting state; end users x paths through the client handler; scripted histories (agent works, the same backend ID is registered again for another agent account and end user, old and new agent on every endpoint, former and new end user through the client handler, unregister, original registration restored) and random-order histories, both judged against an evolving model of who is registered; the cross-backend, unknown-ID and unauthorised agent calls repeated with one failing store read each (k-th datastore Get / memcache Get / RunQuery of that handler invocation, internal error or timeout: acceptance and foreign writes stay forbidden, 4xx/5xx are admissible); every call goes through appengine's handleHTTP and the app's routing closure; class = (kind, endpoint, identity class, named-backend class, request-ID class, history?)")
 	r.Assume("/cron/delete is executed but not judged (documented as restricted by app.yaml); an authorised call reading or writing keys in its own backend's namespace that merely contain a caller-supplied foreign request ID is not counted as touching the other backend; status codes for unknown/absent request IDs are only required to be 4xx; client requests are cut short once queued (incoming context cancelled) instead of waiting 30 s")
 	bin := r.MustBuild(e3Build(r))
 	rng := r.Rand("c17")
@@ -1127,7 +1181,7 @@ func C17(r *core.Run) {
 		}
 		results[cr.World][cr.I] = &cr
 	}
-	executed, unauth, auth, samples := 0, 0, 0, 0
+	executed, unauth, auth, samples, withFault, faultFired := 0, 0, 0, 0, 0, 0
 	for _, wd := range worlds {
 		if len(wd.owned) == 0 && res.SawEnd {
 			r.Broken("C17 world " + wd.ID + " reported no setup")
@@ -1156,6 +1210,12 @@ func C17(r *core.Run) {
 			}
 			wd.judge(r, c, cr, st)
 			st.apply(c, cr)
+			if len(c.Faults) > 0 {
+				withFault++
+				if cr.Fired > 0 {
+					faultFired++
+				}
+			}
 			if cr.Status == 401 || cr.Status == 403 {
 				unauth++
 			} else if c.Meta.Kind == "agent" {
@@ -1168,6 +1228,8 @@ func C17(r *core.Run) {
 		}
 	}
 	r.Set("worlds", len(worlds))
+	r.Set("cases_with_a_failing_store_read", withFault)
+	r.Set("cases_where_the_failure_was_reached", faultFired)
 	r.Set("cases_generated", total)
 	r.Set("answered_401_or_403", unauth)
 	r.Set("agent_calls_not_rejected", auth)
